@@ -275,9 +275,6 @@ func lawsFS14(s sink, c case14, d *docCtx14) (string, bool) {
 	})
 	if cls == ClsPanic {
 		class := "C14/panic-fieldspec:" + strings.ReplaceAll(c14FirstN(msg, 50), " ", "_")
-		if oddContentPanic14(msg, orig.YNode()) && orig.YNode().Kind == kyaml.SequenceNode {
-			class = oddContentClass14 // isMatchGVK read a sequence object as a mapping
-		}
 		s.Violation(OracleViolation{Law: "no_panic", Class: class, Detail: "fieldspec.Filter panics: " + msg, Replay: c})
 		return cls, false
 	}
@@ -354,9 +351,6 @@ func lawsFSSlice14(s sink, c case14, d *docCtx14) (string, bool) {
 	})
 	if cls == ClsPanic {
 		class := "C14/panic-fieldspec:" + strings.ReplaceAll(c14FirstN(msg, 50), " ", "_")
-		if oddContentPanic14(msg, orig.YNode()) && orig.YNode().Kind == kyaml.SequenceNode {
-			class = oddContentClass14 // isMatchGVK read a sequence object as a mapping
-		}
 		s.Violation(OracleViolation{Law: "no_panic", Class: class, Detail: "fsslice.Filter panics: " + msg, Replay: c})
 		return cls, false
 	}
@@ -427,7 +421,7 @@ func fsMatchesGVK14(f *fsSpec, obj *kyaml.RNode) bool {
 
 // ---------- generators ----------
 
-var fsKeys = []string{"a", "b", "c", "name", "x/y"}
+var fsKeys = []string{"a", "b", "c", "name", "x/y", "x/y/z", "e.com/t/o"}
 var fsScalars = []string{"x", "y", "1", "null", "~", `""`, "true"}
 
 func genFSNode14(g *Rng, depth int) *gnode {
@@ -551,7 +545,7 @@ func genFSObjNode14(g *Rng) *gnode {
 	return m
 }
 
-var fsSegs = []string{"a", "b", "c", "name", "a", "b", `x\/y`, "a[]", "b[]", "c[]"}
+var fsSegs = []string{"a", "b", "c", "name", "a", "b", `x\/y`, `x\/y\/z`, `e.com\/t\/o`, "a[]", "b[]", "c[]"}
 var fsOddSegs = []string{"0", "1", "-", "*", "[name=x]", "", " a ", "a[][]", "[]", `a\`, "+1", "[=x]", "a ", "-1"}
 
 func genFSPath14(g *Rng) string {
